@@ -17,7 +17,7 @@ PROP = "C07"
 RULE = ("tables = mappings frozenset(platforms) -> count. Enumerated: every table over <=3 platforms "
         "with per-row value in {absent,0,1,2,5} (quick: <=2 platforms complete, 3 platforms with <=4 rows "
         "present); random: <=8 platforms, counts <=10^12. Each table is evaluated for every non-empty "
-        "`platforms` argument (as set and list), every ordered platform pair, renamed, row-shuffled and "
+        "`platforms` argument (as set, list, tuple, frozenset and dict keys view), every ordered platform pair, renamed, row-shuffled and "
         "scaled by 2 and 1000. Non-trivial = table has >=1 platform and >=1 line; distinct by canonical "
         "row list.")
 ASSUMPTIONS = [
@@ -26,6 +26,7 @@ ASSUMPTIONS = [
     "distance(p,q) with no line used by p or q is 0/0: NaN or 0.0 accepted, an exception is not",
     "an explicitly empty `platforms=` collection is not exercised",
 ]
+CASE_NAMES = ["GPU", "gpu", "Gpu", "gPU", "stra\u00dfe", "STRASSE", "strasse", "\u212a"]   # equal under lower()/casefold()
 NAMES3 = ["cpu", "cpu-avx512", "gpu"]     # one name is a substring of another on purpose
 VALUES = [None, 0, 1, 2, 5]
 
@@ -44,7 +45,7 @@ def required_cells(tier):
     return ["undefined:coverage-no-lines", "undefined:coverage-no-platforms", "undefined:divergence-lt2",
             "undefined:distance-empty-union", "row:empty-set", "row:zero-count", "shared-only-platform",
             "arg:subset-size-1", "arg:subset-size-k-1", "meta:rename", "meta:reorder", "meta:scale",
-            "class:enum", "class:random", "names:substring-related"]
+            "class:enum", "class:random", "names:substring-related", "meta:rename-case-variants"]
 
 
 # ---------------------------------------------------------------- oracle --
@@ -156,6 +157,8 @@ def random_tables(ctx):
             names = [rng.choice(["cpu", "gpu", "x", "Z", "a b", "é", "0"]) + str(j) for j in range(k)]
         elif rng.random() < 0.4:
             names = ["p" * (j + 1) for j in range(k)]       # p, pp, ppp: every name is a substring of the next
+        elif rng.random() < 0.3:
+            names = CASE_NAMES[:k]                          # names that differ only in letter case
         nrows = rng.randint(0, min(2 ** k, 14))
         rows = {}
         for _ in range(nrows):
@@ -235,7 +238,7 @@ def check_table(rows, report, watch, rng):
                 cells.add("arg:subset-size-1")
             if r == len(ps) - 1 and r >= 1:
                 cells.add("arg:subset-size-k-1")
-            for arg in (set(sub), list(sub)):
+            for arg in (set(sub), list(sub), tuple(sub), frozenset(sub), dict.fromkeys(sub).keys()):
                 expect("coverage", sorted(sub), watch(report.coverage, table, arg), ref_coverage(table, sub))
                 expect("average_coverage", sorted(sub), watch(report.average_coverage, table, arg),
                        ref_avg_coverage(table, sub))
@@ -293,6 +296,10 @@ def check_table(rows, report, watch, rng):
         ren = {p: f"r{len(ps) - i}_{p[::-1]}" for i, p in enumerate(ps)}
         same("meta:rename", {frozenset(ren[p] for p in k): v for k, v in table.items()})
         cells.add("meta:rename")
+        if len(ps) <= len(CASE_NAMES):
+            ren = dict(zip(ps, CASE_NAMES))
+            same("meta:rename-case-variants", {frozenset(ren[p] for p in k): v for k, v in table.items()})
+            cells.add("meta:rename-case-variants")
     if len(table) > 1:
         items = list(table.items())
         rng.shuffle(items)
